@@ -38,7 +38,7 @@ def hcls : Pc → Nat
   | .retp (.lock _) => 4
   | .retp .dtor => 0
   | .retp _ => 2
-  | .regAlloc .. | .regCons .. | .pushStore (.reg _) .. | .pushCas (.reg _) .. => 1
+  | .regAlloc .. | .regCons .. | .pushStore (.reg _) .. | .pushCas (.reg _) .. | .rExc _ => 1
   | .dNext _ | .dDesN .. | .dFreN .. | .dZhead | .dOwner _ | .dRNext _ | .dZn .. | .dDesZN .. | .dFreZN ..
   | .dDesZ .. | .dFreZ .. => 0
   | _ => 2
@@ -47,10 +47,15 @@ def Op.isPush : Op → Bool
   | .push .. => true | _ => false
 def Op.regOp : Op → Bool
   | .beg => true | .push .. => true | _ => false
+/-- operations that can leave their critical section with an exception -/
+def Op.canThrow : Op → Bool
+  | .push .. => true | .erase _ => true | _ => false
 
 /-- the operation a pc belongs to is of the right kind -/
 def opOk : Pc → Bool
-  | .pAlloc k | .pCons k _ | .pThrown k | .pExc k | .pLoad k _ | .pE1 k _ | .pE2 k _ | .pF1 k _ _ | .pF2 k _ _ | .pF3 k _
+  | .pThrown k | .pExc k => k.canThrow
+  | .rExc k => k.regOp
+  | .pAlloc k | .pCons k _ | .pLoad k _ | .pE1 k _ | .pE2 k _ | .pF1 k _ _ | .pF2 k _ _ | .pF3 k _
   | .pB1 k _ _ | .pB2 k _ _ | .pB3 k _ | .pUnlock k => k.isPush
   | .regAlloc k _ | .regCons k _ | .pushStore (.reg k) _ _ | .pushCas (.reg k) _ _ => k.regOp
   | _ => true
@@ -442,7 +447,7 @@ local macro "frameA" h:ident : tactic =>
   `(tactic| (refine invA_setPc ?_ _ ?_ ?_ ?_ ?_ ?_ ?_ <;>
       first
       | exact invA_congr $h rfl rfl rfl rfl rfl rfl
-      | (simp_all [hndOk, hcls, holdsW, inDtor, myRec, needsIt, Hnd.isReg, Hnd.isNone, Hnd.isFresh, Hnd.isW, opOk, Op.isPush, Op.regOp]; done)))
+      | (simp_all [hndOk, hcls, holdsW, inDtor, myRec, needsIt, Hnd.isReg, Hnd.isNone, Hnd.isFresh, Hnd.isW, opOk, Op.isPush, Op.regOp, Op.canThrow]; done)))
 
 theorem invA_step_call {s s' : St} {t : Tid} {e : Ev} (h : InvA s) (hs : Step s t e s') (he : e.kind = .call) : InvA s' := by
   have hok := h.hok t
@@ -536,6 +541,19 @@ theorem invA_step_alo {s s' : St} {t : Tid} {e : Ev} (h : InvA s) (hs : Step s t
   all_goals (try exact h)
   case regAlo k w hpc hk hh =>
     rcases hk with rfl | ⟨f, em, v, rfl⟩ <;> frameA h
+
+theorem invA_step_afl {s s' : St} {t : Tid} {e : Ev} (h : InvA s) (hs : Step s t e s') (he : e.kind = .afl) : InvA s' := by
+  have hok := h.hok t
+  have hitc := h.itc t
+  have hmyr := h.myr t
+  have hwm := h.wm t
+  have hdtd := h.dtd t
+  have hopk := h.opk t
+  cases hs <;> cases he
+  all_goals (try (frameA h; done))
+  case regFail k w hpc hk hh =>
+    rcases hk with rfl | ⟨f, em, v, rfl⟩ <;> frameA h
+  case pAloFail k hpc => cases k <;> frameA h
 
 theorem invA_step_con {s s' : St} {t : Tid} {e : Ev} (h : InvA s) (hs : Step s t e s') (he : e.kind = .con) : InvA s' := by
   have hok := h.hok t
@@ -649,6 +667,7 @@ theorem invA_step {s s' : St} {t : Tid} {e : Ev} (h : InvA s) (hs : Step s t e s
   · exact invA_step_mlk h hs hk
   · exact invA_step_mul h hs hk
   · exact invA_step_alo h hs hk
+  · exact invA_step_afl h hs hk
   · exact invA_step_con h hs hk
   · exact invA_step_des h hs hk
   · exact invA_step_fre h hs hk
